@@ -248,18 +248,38 @@ def run_parts(prop, tier, scratch, parts, known, replay=None):
             procs.append((part, i, pr, lf, deadline))
     failed = []
     for part, i, pr, lf, deadline in procs:
-        try:
-            remaining = max(5.0, t_start + deadline * 3 + 180 - time.time())
-            rc = pr.wait(timeout=remaining)
-        except subprocess.TimeoutExpired:
-            pr.kill()
-            rc = -9
+        rc = None
+        while rc is None:
+            remaining = t_start + deadline * 3 + 180 - time.time()
+            try:
+                rc = pr.wait(timeout=2.0)
+            except subprocess.TimeoutExpired:
+                # safety net: a shard that runs away (time or memory) is killed; that
+                # is a missing verdict (exit 2), never a violation
+                for qpart, qi, q, _, _ in procs:
+                    if q.poll() is None and rss_gb(q.pid) > RSS_LIMIT_GB:
+                        log("killing shard %s/%d: resident memory above %d GB" % (qpart["name"], qi, RSS_LIMIT_GB))
+                        q.kill()
+                if remaining <= 0:
+                    log("killing shard %s/%d: deadline" % (part["name"], i))
+                    pr.kill()
         lf.close()
         if rc != 0:
             if part.get("race") and any(f.startswith("race.%s.%d." % (part["name"], i)) for f in os.listdir(outdir)):
                 continue  # the race detector reported: turned into violations by race_violations()
             failed.append((part["name"], i, rc, lf.name))
     return outdir, failed, build_notes
+
+
+RSS_LIMIT_GB = int(os.environ.get("VERIF_RSS_LIMIT_GB", "12"))
+
+
+def rss_gb(pid):
+    try:
+        with open("/proc/%d/statm" % pid) as f:
+            return int(f.read().split()[1]) * 4096 / float(1 << 30)
+    except Exception:
+        return 0.0
 
 
 def race_violations(prop, outdir):
